@@ -1,8 +1,9 @@
 (* Totality of the field type part of `_create_config` (model: CreateConfig.create_ft):
-   a field type tree with the DOCUMENTED shape (DocValid.ft_doc true) never makes it crash - the
-   claim in the comment of `_Parser._parse` ("the node already has the expected structure").
-   And the converse side: for each documented constraint that the unchanged final schema does
-   not enforce (Props/C09.v `_refuted`), a schema-valid witness on which it does crash. *)
+   a field type tree accepted by the final schema (shape DocValid.ft_doc false, Props/C09.v)
+   that contains no float and no null `mappings` never makes it crash - the claim in the comment
+   of `_Parser._parse` ("the node already has the expected structure").  And the converse side:
+   for the two excluded cases (which the schemas still accept, Props/C09.v `_refuted`), a
+   schema-valid witness on which it does crash. *)
 From Coq Require Import List String ZArith Bool Lia.
 Import ListNotations.
 From BT.Front Require Import Json JsonSchema JsonSchemaLemmas DocValid JsonSchemaDoc JsonWitness CreateConfig.
@@ -18,7 +19,48 @@ Proof.
   rewrite (H a (or_introl eq_refl)). simpl. apply IH. intros; apply H; auto.
 Qed.
 
-(* ---- accessors under the documented shapes *)
+(* ---- [clean]: no float, no null `mappings`, inherited by sub-documents *)
+Lemma clean_lookup m k x : clean (JObj m) = true -> lookup k m = Some x -> clean x = true.
+Proof.
+  induction m as [|[k' v] m IH]; simpl; [discriminate|]. intros C L.
+  apply andb_true_iff in C. destruct C as [C1 C2]. apply andb_true_iff in C1. destruct C1 as [_ Cv].
+  destruct (String.eqb k k'); [injection L as <-; exact Cv|]. apply IH; assumption.
+Qed.
+Lemma clean_In_arr l x : clean (JArr l) = true -> In x l -> clean x = true.
+Proof.
+  induction l as [|a l IH]; simpl; [contradiction|]. intros C [->|H];
+    apply andb_true_iff in C; destruct C as [Ca Cl]; auto.
+Qed.
+Lemma clean_In_obj m k x : clean (JObj m) = true -> In (k, x) m -> clean x = true.
+Proof.
+  induction m as [|[k' v] m IH]; simpl; [contradiction|]. intros C H.
+  apply andb_true_iff in C. destruct C as [C1 C2]. apply andb_true_iff in C1. destruct C1 as [_ Cv].
+  destruct H as [[= -> ->]|H]; [exact Cv|]. apply IH; assumption.
+Qed.
+Lemma clean_not_null m k :
+  clean (JObj m) = true -> String.eqb k "mappings" = true -> lookup k m <> Some JNull.
+Proof.
+  intros C K. induction m as [|[k' v] m IH]; [discriminate|].
+  cbn [clean] in C. apply andb_true_iff in C. destruct C as [C1 C2].
+  apply andb_true_iff in C1. destruct C1 as [N _].
+  cbn [lookup]. destruct (String.eqb k k') eqn:E.
+  - intros [= ->]. apply String.eqb_eq in E. subst k'. unfold null_mappings in N.
+    cbn [fst snd] in N. rewrite K in N. discriminate N.
+  - apply IH. exact C2.
+Qed.
+Lemma clean_mappings m : clean (JObj m) = true -> lookup "mappings" m <> Some JNull.
+Proof. intros C. apply clean_not_null; [exact C|reflexivity]. Qed.
+Lemma int_val_clean lo hi x : int_val lo hi x -> clean x = true -> int_doc lo hi x.
+Proof.
+  intros (z & A & B) C. destruct x; simpl in A; try discriminate.
+  injection A as ->. exists z. auto.
+Qed.
+Lemma is_int_clean x : is_int false x -> clean x = true -> is_int true x.
+Proof.
+  intros (z & A) C. destruct x; simpl in A; try discriminate. eexists; reflexivity.
+Qed.
+
+(* ---- accessors under the shapes *)
 Lemma pget_required m k (P : json -> Prop) :
   required m k P -> (forall x, P x -> x <> JNull) -> exists x, pget k m = Some x /\ P x.
 Proof.
@@ -26,76 +68,87 @@ Proof.
   destruct x; try reflexivity. exfalso. exact (NN _ Px eq_refl).
 Qed.
 Lemma pget_optional m k (P : json -> Prop) :
-  optional m k P -> pget k m = None \/ exists x, pget k m = Some x /\ P x.
+  optional m k P -> pget k m = None \/ exists x, pget k m = Some x /\ lookup k m = Some x /\ P x.
 Proof.
   intros O. unfold pget. destruct (lookup k m) as [x|] eqn:L; [|left; reflexivity].
   destruct (O x L) as [->|Px]; [left; reflexivity|].
-  destruct x; try (right; eexists; split; [reflexivity|exact Px]). left; reflexivity.
+  destruct x; try (right; eexists; split; [reflexivity|split; [reflexivity|exact Px]]). left; reflexivity.
 Qed.
 
-Lemma int_doc_not_null lo hi x : int_doc lo hi x -> x <> JNull.
-Proof. intros (z & -> & _). discriminate. Qed.
-Lemma str_in_not_null l x : str_in l x -> x <> JNull.
-Proof. intros (s & -> & _). discriminate. Qed.
+Lemma int_val_not_null lo hi x : int_val lo hi x -> x <> JNull.
+Proof. intros (z & A & _) ->. discriminate A. Qed.
 
-Lemma check_alignment_safe m k : optional m k (intP true 1 None) -> safe (check_alignment (pget k m)).
+Lemma check_alignment_safe m k :
+  clean (JObj m) = true -> optional m k (intP false 1 None) -> safe (check_alignment (pget k m)).
 Proof.
-  intros O. destruct (pget_optional _ _ _ O) as [->|(x & -> & z & -> & Hz & _)]; [reflexivity|].
+  intros C O. unfold intP in O. destruct (pget_optional _ _ _ O) as [->|(x & -> & L & I)]; [reflexivity|].
+  destruct (int_val_clean _ _ _ I (clean_lookup _ _ _ C L)) as (z & -> & Hz & _).
   unfold safe. simpl. destruct (Z.ltb z 1) eqn:E; [apply Z.ltb_lt in E; lia|].
   destruct (is_pow2 z); reflexivity.
 Qed.
 Lemma check_base_safe m : optional m "preferred-display-base" (str_in base_names) ->
   check_base (pget "preferred-display-base" m) = Ok.
 Proof.
-  intros O. destruct (pget_optional _ _ _ O) as [->|(x & -> & s & -> & Hin)]; [reflexivity|].
+  intros O. destruct (pget_optional _ _ _ O) as [->|(x & -> & _ & s & -> & Hin)]; [reflexivity|].
   unfold check_base. apply mem_str_In in Hin. rewrite Hin. reflexivity.
 Qed.
 
 Lemma create_int_safe' m :
-  required m "size" (intP true 1 (Some 64%Z)) -> optional m "alignment" (intP true 1 None) ->
+  clean (JObj m) = true ->
+  required m "size" (intP false 1 (Some 64%Z)) -> optional m "alignment" (intP false 1 None) ->
   optional m "preferred-display-base" (str_in base_names) -> safe (create_int m).
 Proof.
-  intros S A B.
-  destruct (pget_required _ _ _ S (int_doc_not_null _ _)) as (x & Lx & z & -> & _).
+  intros C S A B. unfold intP in S.
+  destruct (pget_required _ _ _ S (int_val_not_null _ _)) as (x & Lx & z & Ez & _).
   unfold create_int, create_bit_array, need. rewrite (check_base_safe _ B), Lx. simpl.
-  apply oseq_safe; [|destruct (pget "alignment" m); reflexivity].
-  apply oseq_safe; [apply check_alignment_safe; exact A|reflexivity].
+  apply oseq_safe.
+  - apply oseq_safe; [apply check_alignment_safe; assumption|reflexivity].
+  - destruct (pget "alignment" m); [reflexivity|]. destruct x; simpl in Ez; try discriminate Ez; reflexivity.
 Qed.
-Lemma create_int_safe m classes : int_ft_doc true classes (JObj m) -> safe (create_int m).
+Lemma create_int_safe m classes :
+  clean (JObj m) = true -> int_ft_doc false classes (JObj m) -> safe (create_int m).
 Proof.
-  intros (m' & E & _ & S & A & B & _). injection E as <-. apply create_int_safe'; assumption.
+  intros C (m' & E & _ & S & A & B & _). injection E as <-. apply create_int_safe'; assumption.
 Qed.
 
-Lemma check_range_ok r : enum_range (is_int true) r -> check_range r = Ok.
-Proof. intros [(z & ->)|(a & b & -> & (za & ->) & (zb & ->))]; reflexivity. Qed.
-Lemma check_mapping_ok v : enum_mapping (is_int true) v -> check_mapping v = Ok.
+Lemma as_int_hashable x z : as_int x = Some z -> unhashable x = false.
+Proof. destruct x; simpl; try discriminate; reflexivity. Qed.
+Lemma check_range_ok r : clean r = true -> enum_range (is_int false) r -> check_range r = Ok.
 Proof.
-  intros (l & -> & _ & R). simpl. apply oall_ok. intros r Hr. apply check_range_ok. auto.
+  intros C [I|(a & b & -> & (za & Ea) & (zb & Eb))].
+  - destruct (is_int_clean _ I C) as (z & ->). reflexivity.
+  - simpl. rewrite (as_int_hashable _ _ Ea), (as_int_hashable _ _ Eb). reflexivity.
+Qed.
+Lemma check_mapping_ok v : clean v = true -> enum_mapping (is_int false) v -> check_mapping v = Ok.
+Proof.
+  intros C (l & -> & _ & R). simpl. apply oall_ok. intros r Hr. apply check_range_ok; auto.
+  exact (clean_In_arr _ _ C Hr).
 Qed.
 Lemma pentries_In m k v : In (k, v) (pentries m) -> In (k, v) m.
 Proof. unfold pentries. intros H. apply filter_In in H. tauto. Qed.
 
-Lemma create_enum_safe m classes : enum_ft_doc true classes (JObj m) -> safe (create_enum m).
+Lemma create_enum_safe m classes :
+  clean (JObj m) = true -> enum_ft_doc false classes (JObj m) -> safe (create_enum m).
 Proof.
-  intros (m' & E & C & S & A & B & M & K). injection E as <-.
-  assert (NN : forall x, mappings_doc true x -> x <> JNull).
-  { intros x [[F _]|(mm & -> & _)]; [discriminate F|discriminate]. }
-  destruct (pget_required _ _ _ M NN) as (x & Lx & [[F _]|(mm & -> & _ & R)]); [discriminate F|].
-  unfold create_enum. rewrite Lx. rewrite oall_ok.
+  intros Cl (m' & E & C & S & A & B & (x & Lm & M) & K). injection E as <-.
+  destruct M as [[_ ->]|(mm & -> & _ & R)]; [exfalso; exact (clean_mappings _ Cl Lm)|].
+  unfold create_enum, pget. rewrite Lm. rewrite oall_ok.
   - simpl. apply create_int_safe'; assumption.
-  - intros [k v] Hin. simpl. apply check_mapping_ok. apply (R k v). apply pentries_In. exact Hin.
+  - intros [k v] Hin. simpl. apply pentries_In in Hin. apply check_mapping_ok; [|exact (R k v Hin)].
+    exact (clean_In_obj _ _ _ (clean_lookup _ _ _ Cl Lm) Hin).
 Qed.
 
-Lemma create_real_safe m : real_ft_doc true (JObj m) -> safe (oseq (create_bit_array m) Ok).
+Lemma create_real_safe m :
+  clean (JObj m) = true -> real_ft_doc false (JObj m) -> safe (oseq (create_bit_array m) Ok).
 Proof.
-  intros (m' & E & _ & S & A & _). injection E as <-.
-  assert (NN : forall x, real_size true x -> x <> JNull) by (intros x [->| ->]; discriminate).
+  intros C (m' & E & _ & S & A & _). injection E as <-.
+  assert (NN : forall x, real_size false x -> x <> JNull) by (intros x (z & Ez & _) ->; discriminate Ez).
   destruct (pget_required _ _ _ S NN) as (x & Lx & _).
   unfold create_bit_array, need. rewrite Lx.
-  apply oseq_safe; [|reflexivity]. apply oseq_safe; [apply check_alignment_safe; exact A|reflexivity].
+  apply oseq_safe; [|reflexivity]. apply oseq_safe; [apply check_alignment_safe; assumption|reflexivity].
 Qed.
 
-(* the class of a documented field type node *)
+(* the class of a field type node *)
 Lemma class_lookup_doc m c names C :
   required m "class" (str_in names) -> lookup "class" m = Some (JStr c) ->
   (forall s, In s names -> class_of s = Some C) ->
@@ -112,75 +165,78 @@ Proof.
     destruct D as (m & -> & (x & L & s & -> & _) & _); exists m, s; auto.
 Qed.
 
-(* main theorem, by induction on the size of the node *)
-Theorem create_ft_total : forall j, ft_doc true j -> forall fuel, safe (create_ft fuel j).
+(* main theorem, by induction on the size of the node: what the current schemas enforce
+   ([ft_doc false], Props/C09.v) plus [clean] suffices *)
+Theorem create_ft_total : forall j, ft_doc false j -> clean j = true -> forall fuel, safe (create_ft fuel j).
 Proof.
   intros j. remember (jsize j) as n eqn:En. revert j En.
-  induction n as [n IH] using lt_wf_ind. intros j -> H fuel.
+  induction n as [n IH] using lt_wf_ind. intros j -> H Cl fuel.
   destruct fuel as [|fuel]; [reflexivity|].
   destruct (ft_doc_obj _ _ H) as (m & c & -> & Lc).
-  assert (REC : forall x, jsize x < jsize (JObj m) -> ft_doc true x -> safe (fst (create_fts fuel x))).
-  { intros x Sx Dx. exact (IH (jsize x) Sx x eq_refl Dx fuel). }
+  assert (REC : forall x, jsize x < jsize (JObj m) -> ft_doc false x -> clean x = true ->
+                          safe (fst (create_fts fuel x))).
+  { intros x Sx Dx Cx. exact (IH (jsize x) Sx x eq_refl Dx Cx fuel). }
   unfold create_ft. simpl create_fts. unfold create_body.
   destruct (ft_doc_inv _ _ _ H Lc) as [[C D]|[[C D]|[[C D]|[[C D]|[[C D]|[[C D]|[[C D]|[[C D]|[C D]]]]]]]]].
   - rewrite (class_lookup_doc m c uint_names CUint); [|destruct D as (m' & E & R & _); injection E as <-; exact R|exact Lc|class_names_tac].
-    simpl. exact (create_int_safe _ _ D).
+    simpl. exact (create_int_safe _ _ Cl D).
   - rewrite (class_lookup_doc m c sint_names CSint); [|destruct D as (m' & E & R & _); injection E as <-; exact R|exact Lc|class_names_tac].
-    simpl. exact (create_int_safe _ _ D).
+    simpl. exact (create_int_safe _ _ Cl D).
   - rewrite (class_lookup_doc m c uenum_names CUenum); [|destruct D as (m' & E & R & _); injection E as <-; exact R|exact Lc|class_names_tac].
-    simpl. exact (create_enum_safe _ _ D).
+    simpl. exact (create_enum_safe _ _ Cl D).
   - rewrite (class_lookup_doc m c senum_names CSenum); [|destruct D as (m' & E & R & _); injection E as <-; exact R|exact Lc|class_names_tac].
-    simpl. exact (create_enum_safe _ _ D).
+    simpl. exact (create_enum_safe _ _ Cl D).
   - rewrite (class_lookup_doc m c real_names CReal); [|destruct D as (m' & E & R & _); injection E as <-; exact R|exact Lc|class_names_tac].
-    simpl. exact (create_real_safe _ D).
+    simpl. exact (create_real_safe _ Cl D).
   - rewrite (class_lookup_doc m c string_names CString); [|destruct D as (m' & E & R & _); injection E as <-; exact R|exact Lc|class_names_tac].
     reflexivity.
   - (* static array *)
     rewrite (class_lookup_doc m c sarray_names CSArray); [|destruct D as (m' & E & R & _); injection E as <-; exact R|exact Lc|class_names_tac].
     simpl. destruct D as (m' & E & _ & (e & Le & De) & Len & _). injection E as <-.
-    destruct (pget_required _ _ _ Len (int_doc_not_null _ _)) as (x & Lx & _).
+    unfold intP in Len. destruct (pget_required _ _ _ Len (int_val_not_null _ _)) as (x & Lx & _).
     unfold need. rewrite Lx. simpl.
     unfold create_array, pget. rewrite Le.
     destruct (ft_doc_obj _ _ De) as (me & ce & -> & _).
-    pose proof (REC _ (jsize_lookup _ _ _ Le) De) as S.
+    pose proof (REC _ (jsize_lookup _ _ _ Le) De (clean_lookup _ _ _ Cl Le)) as S.
     destruct (create_fts fuel (JObj me)) as [r oc]. simpl in S.
     destruct r; try discriminate S; try reflexivity. destruct oc as [[]|]; reflexivity.
   - (* dynamic array *)
     rewrite (class_lookup_doc m c darray_names CDArray); [|destruct D as (m' & E & R & _); injection E as <-; exact R|exact Lc|class_names_tac].
-    simpl. destruct D as (m' & E & _ & St). injection E as <-.
-    destruct (St eq_refl) as [(e & Le & De) _].
+    simpl. destruct D as (m' & E & _ & (e & Le & De) & _). injection E as <-.
     unfold create_array, pget. rewrite Le.
     destruct (ft_doc_obj _ _ De) as (me & ce & -> & _).
-    pose proof (REC _ (jsize_lookup _ _ _ Le) De) as S.
+    pose proof (REC _ (jsize_lookup _ _ _ Le) De (clean_lookup _ _ _ Cl Le)) as S.
     destruct (create_fts fuel (JObj me)) as [r oc]. simpl in S.
     destruct r; try discriminate S; try reflexivity. destruct oc as [[]|]; reflexivity.
   - (* structure *)
     rewrite (class_lookup_doc m c struct_names CStruct); [|destruct D as (m' & E & R & _); injection E as <-; exact R|exact Lc|class_names_tac].
     simpl. destruct D as (m' & E & _ & A & M & _). injection E as <-.
-    unfold create_struct. apply oseq_safe; [apply check_alignment_safe; exact A|].
-    destruct (pget_optional _ _ _ M) as [->|(x & Lx & l & -> & Ml)]; [reflexivity|].
+    unfold create_struct. apply oseq_safe; [apply check_alignment_safe; assumption|].
+    destruct (pget_optional _ _ _ M) as [->|(x & Lx & Lm & l & -> & Ml)]; [reflexivity|].
     rewrite Lx.
-    assert (Sl : jsize (JArr l) < jsize (JObj m)).
-    { unfold pget in Lx. destruct (lookup "members" m) as [y|] eqn:Ly; [|discriminate].
-      assert (y = JArr l) by (destruct y; congruence). subst y. eapply jsize_lookup; eauto. }
+    pose proof (jsize_lookup _ _ _ Lm) as Sl. pose proof (clean_lookup _ _ _ Cl Lm) as Cll.
     assert (G : forall seen l', (forall e, In e l' -> In e l) -> safe (create_members (create_fts fuel) seen l')).
     { intros seen l'. revert seen. induction l' as [|e l' IHl]; intros seen Sub; [reflexivity|].
-      destruct (Ml e (Sub e (or_introl eq_refl))) as (name & v & -> & Sv & _).
-      destruct (Sv eq_refl) as [_ (mo & -> & (ftn & Lf & Df) & _)].
+      pose proof (Sub e (or_introl eq_refl)) as Ie.
+      destruct (Ml e Ie) as (name & v & -> & _ & (mo & -> & (ftn & Lf & Df) & _)).
       simpl. destruct (mem_str name seen); [reflexivity|]. destruct (is_keyword name); [reflexivity|].
       destruct (ft_doc_obj _ _ Df) as (mf & cf & -> & Lcf).
       assert (Pf : pget "field-type" mo = Some (JObj mf)) by (unfold pget; rewrite Lf; reflexivity).
       rewrite Pf.
       assert (Sf : jsize (JObj mf) < jsize (JObj m)).
       { pose proof (jsize_lookup _ _ _ Lf) as S1.
-        pose proof (jsize_In_arr _ _ (Sub _ (or_introl eq_refl))) as S2. simpl in S1, S2, Sl |- *. lia. }
+        pose proof (jsize_In_arr _ _ Ie) as S2. simpl in S1, S2, Sl |- *. lia. }
+      assert (Cf : clean (JObj mf) = true).
+      { pose proof (clean_In_arr _ _ Cll Ie) as C1.
+        pose proof (clean_In_obj _ name _ C1 (or_introl eq_refl)) as C2.
+        exact (clean_lookup _ _ _ C2 Lf). }
       assert (CL : exists C, class_lookup (JObj mf) = inl C).
       { destruct (ft_doc_inv _ _ _ Df Lcf) as [[C' D']|[[C' D']|[[C' D']|[[C' D']|[[C' D']|[[C' D']|[[C' D']|[[C' D']|[C' D']]]]]]]]];
           destruct D' as (m' & E & R & _); injection E as <-;
           eexists; eapply class_lookup_doc; try exact R; try exact Lcf; class_names_tac. }
       destruct CL as [C2 ->].
       assert (T : safe (oseq (fst (create_fts fuel (JObj mf))) (create_members (create_fts fuel) (name :: seen) l'))).
-      { apply oseq_safe; [exact (REC _ Sf Df)|]. apply IHl. intros e' He'. apply Sub. right; exact He'. }
+      { apply oseq_safe; [exact (REC _ Sf Df Cf)|]. apply IHl. intros e' He'. apply Sub. right; exact He'. }
       destruct C2; try exact T. reflexivity. }
     apply G. auto.
 Qed.
@@ -190,29 +246,32 @@ Qed.
    skeleton crashes *)
 Definition w_align_float : json :=
   JObj [("class", JStr "uint"); ("size", JInt 8); ("alignment", JFloat (FFin 8 1))].
+(* former crash witness (repaired): member `a-b: 5` *)
 Definition w_member_val : json :=
   JObj [("class", JStr "struct"); ("members", JArr [JObj [("a-b", JInt 5)]])].
 Lemma w_align_float_valid : VK K_ft w_align_float. Proof. apply VK_eval. vm_compute. reflexivity. Qed.
-Lemma w_member_val_valid : VK K_ft w_member_val. Proof. apply VK_eval. vm_compute. reflexivity. Qed.
+Lemma w_member_val_rejected : validate S3 200 (SRef K_ft) w_member_val = Invalid. Proof. vm_compute. reflexivity. Qed.
 
-Lemma crash_S14 : create_ft 50 w_S14 = Crash "KeyError". Proof. vm_compute. reflexivity. Qed.
-Lemma crash_S4 : create_ft 50 w_S4 = Crash "KeyError". Proof. vm_compute. reflexivity. Qed.
 Lemma crash_enum_null : create_ft 50 w_enum_null = Crash "KeyError". Proof. vm_compute. reflexivity. Qed.
 Lemma crash_align_float : create_ft 50 w_align_float = Crash "TypeError". Proof. vm_compute. reflexivity. Qed.
-Lemma crash_member_val : create_ft 50 w_member_val = Crash "TypeError". Proof. vm_compute. reflexivity. Qed.
 
 Lemma refuted_crash (w : json) e : VK K_ft w -> create_ft 50 w = Crash e ->
   exists j, accepts3 "config/3/field-type#/definitions/ft" j /\ exists fuel e, create_ft fuel j = Crash e.
 Proof. intros A B. exists w. split; [exact A|]. exists 50, e. exact B. Qed.
 
-(* accepted and documented => the skeleton is total *)
+(* accepted by the final schema, no float, no null `mappings` => the skeleton is total *)
 Lemma create_ft_total_accepted j :
-  accepts3 "config/3/field-type#/definitions/ft" j -> ft_doc true j ->
+  accepts3 "config/3/field-type#/definitions/ft" j -> clean j = true ->
   forall fuel e, create_ft fuel j <> Crash e.
 Proof.
-  intros _ D fuel e E. pose proof (create_ft_total j D fuel) as S. unfold safe in S. rewrite E in S.
-  discriminate S.
+  intros A C fuel e E. pose proof (create_ft_total j (ft_accepts_doc j A) C fuel) as S.
+  unfold safe in S. rewrite E in S. discriminate S.
 Qed.
+(* per class, where the schema alone suffices *)
+Lemma create_array_classes_total j :
+  accepts3 "config/3/field-type#/definitions/ft" j -> clean j = true ->
+  forall fuel, is_crash (create_ft fuel j) = false.
+Proof. intros A C fuel. exact (create_ft_total j (ft_accepts_doc j A) C fuel). Qed.
 
 (* string field types: the schema alone suffices *)
 Lemma create_string_total j :
